@@ -53,6 +53,9 @@ pub struct Config {
     pub vec_fns: Vec<String>,
     /// method renames `name` -> `new_name` (receiver-independent, checked by rustc in Verus)
     pub method_rename: BTreeMap<String, String>,
+    /// R27: `x += e` on the named usize accumulators becomes `x = vx_count_add(x, e)`; the model of `vx_count_add` (prelude/count.rs)
+    /// states the machine-arithmetic assumption in one place instead of leaving an overflow obligation nobody can discharge
+    pub count_adds: Vec<String>,
     /// method calls turned into free function calls: `x.name(args)` -> `new_name(x, args)`
     pub method_to_fn: BTreeMap<String, String>,
     /// R21: an unsizing coercion `&T -> &dyn Trait` at a call site is made explicit: `callee(.., arg_i, ..)` -> `callee(.., wrapper(arg_i), ..)`
@@ -116,6 +119,9 @@ impl Config {
             }
             if let Some(s) = src["panic"].as_str() {
                 c.panic = s.to_string();
+            }
+            for k in src["count_adds"].as_array().cloned().unwrap_or_default() {
+                c.count_adds.push(k.as_str().unwrap_or("").to_string());
             }
             if let Some(m) = src["method_rename"].as_object() {
                 for (k, v) in m {
@@ -905,6 +911,19 @@ struct MethodRenamePass<'a> {
 impl<'a> VisitMut for MethodRenamePass<'a> {
     fn visit_expr_mut(&mut self, e: &mut syn::Expr) {
         visit_mut::visit_expr_mut(self, e);
+        if let syn::Expr::Binary(b) = e {
+            if let (syn::BinOp::AddAssign(_), syn::Expr::Path(p)) = (&b.op, &*b.left) {
+                if let Some(id) = p.path.get_ident() {
+                    if self.cfg.count_adds.iter().any(|n| id == n) {
+                        let rhs = &b.right;
+                        let new: syn::Expr = syn::parse_quote!(#id = vx_count_add(#id, #rhs));
+                        *e = new;
+                        bump(self.counts, "R27.count_add");
+                        return;
+                    }
+                }
+            }
+        }
         if let syn::Expr::MethodCall(mc) = e {
             if mc.method == "collect" && mc.args.is_empty() {
                 if let Some(n) = callee_name(&mc.receiver) {
@@ -2302,6 +2321,8 @@ impl<'a> AnchorPass<'a> {
             match e {
                 syn::Expr::Try(t) => strip(&t.expr),
                 syn::Expr::Paren(p) => strip(&p.expr),
+                // `x = f(..);` (R27 writes `count = vx_count_add(count, ..)`)
+                syn::Expr::Assign(a) if callee_name(&a.right).as_deref() == Some("vx_count_add") => strip(&a.right),
                 _ => e,
             }
         }
@@ -2820,7 +2841,7 @@ pub fn apply_to_fn(
         p.visit_item_fn_mut(f);
     }
     // method renames
-    if !cfg.method_rename.is_empty() || !cfg.method_to_fn.is_empty() || !cfg.vec_fns.is_empty() || !cfg.wrap_args.is_empty() {
+    if !cfg.method_rename.is_empty() || !cfg.method_to_fn.is_empty() || !cfg.vec_fns.is_empty() || !cfg.wrap_args.is_empty() || !cfg.count_adds.is_empty() {
         let mut p = MethodRenamePass { cfg, counts };
         p.visit_item_fn_mut(f);
     }
